@@ -86,7 +86,7 @@ def do_step(step, root):
     ap = Path(root) / step["ap_file"]
     conv = neuropixel.NP2Converter(ap, post_check=step["post_check"], delete_original=step["delete_original"],
                                    compress=step["compress"])
-    conv.init_params(nwindow=step["nwindow"])
+    conv.init_params(nwindow=step["nwindow"], extra=step.get("extra") or None)
     pre = None
     if step.get("pre_noop_call"):
         # the same converter object is first asked for a plain (non-forced) run over existing output
@@ -104,7 +104,14 @@ def do_step(step, root):
     if step.get("repeat_forced") and status == 1 and Path(root, step["ap_file"]).exists():
         # ... or for a second WRITING run: forced re-run on the same object
         again = int(conv.process(overwrite=True))
-    return {"status": int(status), "pre": pre, "post": post, "again": again}
+    files = None
+    if status == 1:
+        try:
+            lst = conv.get_processed_files_NP24() if conv.np_version == "NP2.4" else conv.get_processed_files_NP21()
+            files = [os.path.relpath(p, root) for p in lst]
+        except Exception as e:
+            files = ["<raised " + type(e).__name__ + ">"]
+    return {"status": int(status), "pre": pre, "post": post, "again": again, "files": files}
 
 
 def eligible(label):
@@ -135,6 +142,7 @@ def _gen_world(r):
     else:
         w["shank_of"] = None
     w["nwindow"] = r.choice([1008, 1200, 1500, 2400, 3600, 6000])
+    w["extra"] = r.choice(["", "", "_x"])        # suffix of the shank folder names (init_params(extra=...))
     w["orig_chunk"] = r.choice([0.02, 0.05, 1.0])
     return w
 
@@ -242,7 +250,7 @@ class World:
         return ok
 
     def shank_dir(self, sh):
-        return self.root / (LABEL + chr(97 + sh))
+        return self.root / (LABEL + chr(97 + sh) + (self.w.get("extra") or ""))
 
     def _load_ap(self, d, want_cols):
         """AP data of a shank folder by the simulator's own means (.bin bytes or decoded .cbin)."""
@@ -368,6 +376,7 @@ def _exec_step(W, st, model, log, stats, bump, seed):
     st = st  # mutated in place (resolved fault, ap_file)
     st["ap_file"] = os.path.relpath(orig, W.root)
     st["nwindow"] = W.w["nwindow"]
+    st["extra"] = W.w.get("extra") or ""
     pool_seed = seed % 1000
     if st.get("repeat_forced") and (st.get("fault") or W.w["kind"] not in ("NP24", "NP24_1sh", "NP21") or st.get("delete_original")
                                     or (W.w["kind"] == "NP21" and st.get("compress") and W.orig_path() == W.bin)):
@@ -487,6 +496,11 @@ def _exec_step(W, st, model, log, stats, bump, seed):
                 raise Violation("C04.S4", f"{sig0}:first-run-status", f"first run on a fresh directory returned {status} | " + ctx)
             if status == 1:
                 _check_outputs(W, st, sig0, ctx)
+                listed = out["ok"].get("files")
+                if listed is not None:
+                    missing = [f for f in listed if not (W.root / f).exists()]
+                    if missing:
+                        raise Violation("C04.S4", f"{sig0}:listed-file-missing", f"the converter lists output files that do not exist: {missing[:4]} | " + ctx)
                 model["completed"] = True
                 model["dirty"] = False
                 model["opts_last"] = opts
